@@ -20,9 +20,9 @@
   `stats['error']` when `check_oracle` returns.  Every assignment to `stats['error']` is
   followed by `output[pid] = …`, so the model stores the message itself.
 
-Two variants of `check_oracle` are modelled, differing in three clearly marked places
-(search `REPAIR`): `Variant.asIs` is the code of the unchanged tree, `Variant.repaired` the
-code after `fixes/C15-*.diff`.  `checkOracle` is the repaired one, `checkOracleAsIs` the other.
+`check_oracle` is modelled with two switches (`Variant`), read in three clearly marked
+places (search `REPAIR`): `Variant.asIs` is the code of the unchanged tree,
+`Variant.repaired` the code after both `fixes/C15-*.diff`.  `checkOracle` is the repaired one, `checkOracleAsIs` the other.
 
 Not modelled: `--debug` (`sys.exit(1)` after the first mismatch), `--rerun`
 (`_report_failed`), signals / `STOP_COND` (a parameter of `stopCondition` only), the wall
@@ -109,15 +109,25 @@ def copytree (okExists : Bool) (fs : FS) (src dst : Path) : Except Err FS :=
 
 /-! ## `check_oracle` -/
 
-inductive Variant where
-  | asIs      -- the unchanged tree
-  | repaired  -- after fixes/C15-both-mismatches.diff and fixes/C15-crash-reports-all.diff
+/-- which of the two candidate repairs are applied to `check_oracle` -/
+structure Variant where
+  /-- fixes/C15-both-mismatches.diff: promotions with `dirs_exist_ok=True`, the
+      `SHOULD NOT BE COMPILED` message built from the injected error (REPAIR 1, REPAIR 2) -/
+  bothFix : Bool
+  /-- fixes/C15-crash-reports-all.diff: a crashed batch reports its tool-failed programs too
+      (REPAIR 3) -/
+  crashFix : Bool
 deriving Repr, DecidableEq, Inhabited
+
+/-- the unchanged tree -/
+def Variant.asIs : Variant := ⟨false, false⟩
+/-- both repairs applied -/
+def Variant.repaired : Variant := ⟨true, true⟩
 
 /-- the promotion `copytree(tmp/<pid>, <pid>)` of the two mismatch branches.
     REPAIR 1: the repaired code passes `dirs_exist_ok=True`. -/
 def promote (v : Variant) (fs : FS) (pid : Nat) : Except Err FS :=
-  copytree (v == .repaired) fs (.tmp pid) (.saved pid)
+  copytree v.bothFix fs (.tmp pid) (.saved pid)
 
 /-- state of the loop over `stats['programs']` of one program -/
 structure LoopSt where
@@ -139,13 +149,12 @@ def stepCorrect (v : Variant) (o : Outcome) (pid : Nat) (st : LoopSt) (f : Nat) 
     REPAIR 2: the repaired code prefixes the *injected* error (read before the loop) and,
     when the program is already in `output`, appends to the message that is there. -/
 def snbcMessage (v : Variant) (inj : Option String) (st : LoopSt) (pid : Nat) : Option String :=
-  match v with
-  | .asIs => st.err.map (snbc ++ ·)
-  | .repaired =>
+  if v.bothFix then
     match inj with
     | none => none
     | some i =>
       if pid ∈ keys st.out then st.err.map (· ++ "\n" ++ (snbc ++ i)) else some (snbc ++ i)
+  else st.err.map (snbc ++ ·)
 
 /-- `if not oracle and program not in failed:` — expected to be rejected, but accepted -/
 def stepIncorrect (v : Variant) (inj : Option String) (pid : Nat) (st : LoopSt) : Except Err LoopSt :=
@@ -200,9 +209,8 @@ def crashLoop (v : Variant) (msg : String) : Reported × FS → List Prog → Ex
   | st, [] => .ok st
   | st, p :: ps =>
     if p.toolFailed then
-      match v with
-      | .asIs => crashLoop v msg st ps
-      | .repaired => crashLoop v msg (dictSet st.1 p.pid p.err, st.2) ps
+      if v.crashFix then crashLoop v msg (dictSet st.1 p.pid p.err, st.2) ps
+      else crashLoop v msg st ps
     else
       match copytree false st.2 (.tmp p.pid) (.saved p.pid) with
       | .error x => .error x
